@@ -64,6 +64,13 @@ def install_integer(reg):
                              'ValueError': ('iff', 'spec.keys.ival(modulus) != 0 and (spec.keys.ival(modulus) < 0 or spec.keys.gcd(self._value, spec.keys.ival(modulus)) != 1)')},
                      ensures={'value': 'result._value == spec.keys.inverse(self._value, spec.keys.ival(modulus))'},
                      modifies=[], assumed=BIGINT))
+    reg.add(Contract(I + 'lcm', params={'term': 'int|' + OINT}, result=OINT,
+                     ensures={'value': 'result._value == spec.keys.lcm(self._value, spec.keys.ival(term))'}, modifies=[], assumed=BIGINT))
+    # Primality.test_probable_prime: COMPOSITE (0) / PROBABLY_PRIME (1) as the uninterpreted verdict of spec.keys; negative numbers are refused
+    reg.add(Contract('Crypto.Math.Primality.test_probable_prime', params={'candidate': 'int|' + OINT, 'randfunc': 'any'},
+                     raises={'ValueError': ('iff', 'spec.keys.ival(candidate) < 0')},
+                     returns='(1 if spec.keys.probable_prime(spec.keys.ival(candidate)) else 0)', modifies=[], options={'exact': True},
+                     assumed='verdict of the Miller-Rabin + Lucas test, uninterpreted (C14 proves soundness; bounded/bigint.py)'))
     return reg
 
 
